@@ -35,6 +35,31 @@ def _acc(name):
     if name == "hamiltonian":
         return (lambda v: qr.Hamiltonian(data=[[0.0, 0.0], [0.0, v]]),
                 lambda o: float(o.data[1, 1]), lambda o: float(o._data[1, 1]))
+    if name == "hamiltonian_array":
+        # numpy array supplied; the CALLER changes its array afterwards: what is stored is a
+        # value, not a reference to the caller's buffer, whatever the units of the supply
+        def sup(v):
+            a = numpy.array([[0.0, 0.0], [0.0, float(v)]])
+            h = qr.Hamiltonian(data=a)
+            a *= 3.0
+            return h
+        return (sup, lambda o: float(o.data[1, 1]), lambda o: float(o._data[1, 1]))
+    if name == "hamiltonian_first_read_in_eigenbasis":
+        # the read happens inside eigenbasis_of(H) (entered inside the reading units context) and
+        # is the FIRST access to the data in that basis; H is diagonal, the value is the same
+        def rd(o):
+            with qr.eigenbasis_of(o):
+                d = numpy.real(numpy.diag(o.data))      # ascending order: v may come first
+                return float(d[numpy.argmax(numpy.abs(d))])
+        return (lambda v: qr.Hamiltonian(data=[[0.0, 0.0], [0.0, v]]), rd,
+                lambda o: float(o._data[1, 1]))
+    if name == "molecule_init_array":
+        def sup(v):
+            a = numpy.array([0.0, float(v)])
+            m = qr.Molecule(elenergies=a)
+            a *= 3.0
+            return m
+        return (sup, lambda o: float(o.get_energy(1)), lambda o: float(o.elenergies[1]))
     if name == "molecule_init":
         return (lambda v: qr.Molecule(elenergies=[0.0, v]),
                 lambda o: float(o.get_energy(1)), lambda o: float(o.elenergies[1]))
@@ -84,6 +109,17 @@ def _acc(name):
             return a
         return (sup, lambda o: float(o.get_transition(2, 1)[0]),
                 lambda o: float(o.HH[2, 2] - o.HH[1, 1]))
+    if name == "aggregate_coupling_matrix_array":
+        def sup(v):
+            with qr.energy_units("int"):
+                ms = [qr.Molecule(elenergies=[0.0, 1.0]) for _ in range(2)]
+            ag = qr.Aggregate(molecules=ms)
+            a = numpy.array([[0.0, float(v)], [float(v), 0.0]])
+            ag.set_resonance_coupling_matrix(a)
+            a *= 3.0
+            return ag
+        return (sup, lambda o: float(o.get_resonance_coupling(1, 0)),
+                lambda o: float(o.resonance_coupling[0, 1]))
     if name == "aggregate_coupling_matrix":
         def sup(v):
             with qr.energy_units("int"):
@@ -153,7 +189,8 @@ ACCESSORS = ["hamiltonian", "molecule_init", "molecule_set", "mode_init", "mode_
              "aggregate_coupling", "aggregate_coupling_matrix", "frequency_axis_start",
              "frequency_axis_step", "frequency_axis_data", "corfce_reorg", "spectdens_reorg",
              "hamiltonian_rwa", "molecule_rwa", "hamiltonian_cutoff_remove",
-             "aggregate_transition"]
+             "aggregate_transition", "hamiltonian_array", "molecule_init_array",
+             "aggregate_coupling_matrix_array", "hamiltonian_first_read_in_eigenbasis"]
 POSITIVE_ONLY = {"hamiltonian_cutoff_remove", "corfce_reorg", "spectdens_reorg", "mode_init", "mode_set", "submode", "molecule_rwa",
                  "frequency_axis_step"}
 
